@@ -39,14 +39,35 @@ def on_key_for(c: Ctx, pattern_value, unit: Unit | None = None) -> object:
     return keys[0]
 
 
-PATTERN_KINDS = [("'*'", '*', '*'), ("identifier string 'UserEvent'", 'UserEvent', 'UserEvent'), ('BaseEvent subclass UserEvent', Cls('UserEvent'), 'UserEvent')]
+def base_event_type_default(c: Ctx) -> str:
+    """The class-level default of BaseEvent.event_type, read from the class body (`event_type: ... = Field(default='...')`)."""
+    ci = c.prog.cls('BaseEvent')
+    for st in ci.node.body:
+        if isinstance(st, ast.AnnAssign) and isinstance(st.target, ast.Name) and st.target.id == 'event_type' and st.value is not None:
+            v = st.value
+            if isinstance(v, ast.Call):
+                v = q.kw(v, 'default') or (v.args[0] if v.args else None)
+            if isinstance(v, ast.Constant) and isinstance(v.value, str):
+                return v.value
+    raise AnchorError('BaseEvent.event_type: class-level default not found')
+
+
+def pattern_kinds(c: Ctx) -> list[tuple[str, object, str]]:
+    """(description, pattern value, event_type carried by the events that pattern is meant to match)."""
+    base = base_event_type_default(c)
+    return [
+        ("'*'", '*', '*'),
+        ("identifier string 'UserEvent'", 'UserEvent', 'UserEvent'),
+        ('BaseEvent subclass UserEvent', Cls('UserEvent', fields=(('event_type', base),)), 'UserEvent'),
+        ("BaseEvent subclass OverrideEvent that declares event_type = 'custom_type'", Cls('OverrideEvent', fields=(('event_type', 'custom_type'),)), 'custom_type'),
+    ]
 
 
 @ob('C01.1', 'SIB/FLOW', "registry keys agree: on() files a handler under '*', the class name or the string; _get_applicable_handlers reads "
     "self.handlers under both event.event_type and '*' and every looked-up handler reaches the selection loop; event_type defaults to the class name")
 def c01_1(c: Ctx) -> None:
     u_on = c.unit(SVC, 'EventBus.on')
-    for desc, val, want in PATTERN_KINDS:
+    for desc, val, want in pattern_kinds(c):
         got = on_key_for(c, val)
         if got is UNKNOWN:
             raise AnalysisError(f'EventBus.on: key for pattern kind {desc} could not be evaluated (undecided)')
@@ -141,15 +162,25 @@ def check_lookup_not_memoised(c: Ctx, u: Unit, lookups) -> None:
 
 
 def _c01_1_tail(c: Ctx, uv: Unit) -> None:
-    okv = False
-    for n in own_nodes_list(uv):
-        if isinstance(n, ast.Assign) and len(n.targets) == 1 and isinstance(n.targets[0], ast.Subscript) and U(n.targets[0].slice) == "'event_type'":
-            if U(n.value) == f'{uv.params()[0]}.__name__':
-                okv = True
-    if okv:
-        c.ok(where(uv), "event_type defaults to cls.__name__ (the key on(<class>) uses)")
-    else:
-        c.fail(uv, "data['event_type'] is not defaulted to cls.__name__", 'event_type no longer defaults to the class name: class-pattern registrations never match')
+    """The event_type an instance carries, per class kind: evaluate the `before` validator on empty input data."""
+    ps = uv.params()
+    if len(ps) < 2:
+        raise AnalysisError(f'{uv}: unexpected signature')
+    for desc, val, want in pattern_kinds(c):
+        if not isinstance(val, Cls):
+            continue
+        ai = AbsInt()
+        ai.run(uv.node.body, {ps[0]: val, ps[1]: {}})
+        if len(ai.returns) != 1 or type(ai.returns[0]) is not dict:
+            raise AnalysisError(f'{uv}: result undecided for {desc}')
+        data = ai.returns[0]
+        carried = data.get('event_type', dict(val.fields).get('event_type'))  # not set by the validator -> pydantic applies the class-level default
+        if carried is UNKNOWN:
+            raise AnalysisError(f'{uv}: event_type undecided for {desc}')
+        if carried == want:
+            c.ok(where(uv), f'instances of {desc} carry event_type {carried!r}')
+        else:
+            c.fail(uv, f'instances of {desc} carry event_type {carried!r}', f'event_type of {desc} is {carried!r}, not {want!r}: class-pattern registrations never match')
 
 
 def own_nodes_list(u: Unit) -> list[ast.AST]:
@@ -425,6 +456,23 @@ def check_handler_site(c: Ctx, u: Unit, g, call: ast.Call) -> str | None:
         check_handler_loop(c, u, g, loop, call, 'execute_handler')
         return U(loop.iter)
     st = q.stmt_of(call)
+    spawn = parent_of(call)
+    if isinstance(spawn, ast.Call) and isinstance(spawn.func, ast.Attribute) and spawn.func.attr == 'create_task' and isinstance(spawn.func.value, ast.Name):
+        tg = next((w for w in q.ancestors_of(call) if isinstance(w, ast.AsyncWith) and any(
+            isinstance(it.context_expr, ast.Call) and U(it.context_expr.func).split('.')[-1] == 'TaskGroup' and isinstance(it.optional_vars, ast.Name) and it.optional_vars.id == spawn.func.value.id
+            for it in w.items)), None)
+        if tg is not None:
+            # structured concurrency: the group waits for every task, but the first task that fails with anything but CancelledError cancels all the others
+            H = c.an.fm.h
+            raised = sorted(str(t) for t in c.an.fm.call_raises_as_awaited(call, u) if H.is_sub(t.name, 'Exception') or (not t.exact and H.is_sub('Exception', t.name)))
+            if loop is not None:
+                check_handler_loop(c, u, g, loop, call, 'execute_handler')
+            if raised:
+                c.fail(u, f'handler tasks run in an asyncio.TaskGroup although execute_handler can raise {raised[:3]}',
+                       'a TaskGroup cancels every remaining handler task as soon as one handler task fails (error or timeout): sibling handlers are cut off with CancelledError', node=tg)
+            else:
+                c.ok(where(u, tg), 'handler tasks run in an asyncio.TaskGroup and execute_handler raises nothing but cancellation: every task is awaited, none is cancelled by a sibling')
+            return U(loop.iter) if loop is not None else None
     if comp is not None:
         if len(comp.generators) != 1 or comp.generators[0].ifs:
             c.fail(u, f'handler tasks created by a filtered / nested comprehension: {U(comp)[:70]}', 'not every applicable handler gets a task', node=call)
@@ -669,6 +717,152 @@ def c01_8(c: Ctx) -> None:
     from .c14 import c14_3
 
     c14_3(c)
+
+
+def _subst_name(e: ast.AST, old: str, new: str) -> ast.AST:
+    import copy
+
+    class T(ast.NodeTransformer):
+        def visit_Call(self, node):
+            self.generic_visit(node)
+            if isinstance(node.func, ast.Name) and node.func.id == 'str' and len(node.args) == 1 and U(node.args[0]) == new:
+                return node.args[0]  # str(s) of a str is s
+            return node
+
+        def visit_Attribute(self, node):
+            if U(node) == old:
+                return ast.copy_location(ast.Name(id=new, ctx=ast.Load()), node)
+            self.generic_visit(node)
+            return node
+
+        def visit_Name(self, node):
+            return ast.copy_location(ast.Name(id=new, ctx=node.ctx), node) if node.id == old else node
+
+    return T().visit(copy.deepcopy(e))
+
+
+def _ascii_only_regex(pat: str) -> bool | None:
+    """True: the pattern can only match ASCII strings (explicit literals / ranges); False: it uses unicode-aware classes; None: cannot tell."""
+    try:
+        import re._parser as rp  # type: ignore[import-not-found]
+    except Exception:
+        return None
+    try:
+        tree = rp.parse(pat)
+    except Exception:
+        return None
+
+    def walk(items) -> bool | None:
+        for op, av in items:
+            name = str(op)
+            if name == 'LITERAL':
+                if av > 127:
+                    return False
+            elif name == 'IN':
+                for o2, a2 in av:
+                    n2 = str(o2)
+                    if n2 == 'CATEGORY' or n2 == 'NEGATE':
+                        return False
+                    if n2 == 'RANGE' and a2[1] > 127:
+                        return False
+                    if n2 == 'LITERAL' and a2 > 127:
+                        return False
+            elif name in ('MAX_REPEAT', 'MIN_REPEAT'):
+                r = walk(av[2])
+                if r is not True:
+                    return r
+            elif name == 'SUBPATTERN':
+                r = walk(av[3])
+                if r is not True:
+                    return r
+            elif name == 'BRANCH':
+                for alt in av[1]:
+                    r = walk(alt)
+                    if r is not True:
+                        return r
+            elif name == 'AT':
+                continue
+            else:
+                return False if name in ('ANY', 'CATEGORY', 'NOT_LITERAL') else None
+        return True
+
+    return walk(tree)
+
+
+@ob('C01.9', 'SIB', 'every bus name the EventBus constructor accepts is accepted by the validator of the fields that record it (EventResult.eventbus_name, event_path entries): '
+    'otherwise the pending result of every handler fails validation in process_event, no handler of that bus is ever invoked and its events never complete')
+def c01_9(c: Ctx) -> None:
+    from sa.facts import entails
+
+    init = c.unit(SVC, 'EventBus.__init__')
+    self_ = init.params()[0]
+    asserts = [n for n in own_nodes_list(init) if isinstance(n, ast.Assert) and f'{self_}.name' in U(n.test)]
+    if not asserts:
+        c.fail(init, 'the constructor does not check the bus name', 'any string is accepted as a bus name, although the data model records bus names as validated identifiers')
+        return
+    # the validator behind the annotation of EventResult.eventbus_name
+    er = c.prog.cls('EventResult')
+    ann = next((st.annotation for st in er.node.body if isinstance(st, ast.AnnAssign) and isinstance(st.target, ast.Name) and st.target.id == 'eventbus_name'), None)
+    if ann is None:
+        raise AnchorError('EventResult.eventbus_name: field not found')
+    mi = c.prog.module(MOD)
+    alias = next((st for st in mi.tree.body if isinstance(st, (ast.AnnAssign, ast.Assign)) and U(st.target if isinstance(st, ast.AnnAssign) else st.targets[0]) == U(ann)), None)
+    vname = None
+    if alias is not None and alias.value is not None:
+        for x in ast.walk(alias.value):
+            if isinstance(x, ast.Call) and call_name(x) in ('AfterValidator', 'BeforeValidator', 'PlainValidator') and x.args and isinstance(x.args[0], ast.Name):
+                vname = x.args[0].id
+    if vname is None:
+        if U(ann) == 'str':
+            c.ok(where(init, asserts[0]), 'eventbus_name is a plain str: every accepted bus name can be recorded')
+            return
+        raise AnalysisError(f'EventResult.eventbus_name: cannot find the validator behind annotation {U(ann)}')
+    v = c.unit(MOD, vname)
+    vparam = v.params()[0]
+    vtests = [n.test for n in own_nodes_list(v) if isinstance(n, ast.Assert)]
+    if not vtests:
+        raise AnalysisError(f'{v}: no assert statement in the validator')
+    ctest = ast.BoolOp(op=ast.And(), values=[_subst_name(a.test, f'{self_}.name', 's') for a in asserts]) if len(asserts) > 1 else _subst_name(asserts[0].test, f'{self_}.name', 's')
+    vtest_list = [_subst_name(t, vparam, 's') for t in vtests]
+    vtest = ast.BoolOp(op=ast.And(), values=vtest_list) if len(vtest_list) > 1 else vtest_list[0]
+    facts = Facts(lambda a: True)
+    env = facts.assume(ctest, True, {})
+    if env is None:
+        raise AnalysisError('EventBus.__init__: the name assertion is unsatisfiable')
+    env = dict(env)
+    env[U(ctest)] = 'T'
+    if entails(env, vtest):
+        c.ok(where(init, asserts[0]), f'constructor accepts `{U(ctest)}`, which implies the recording fields\' validator `{U(vtest)}` ({vname})')
+        return
+    # not implied propositionally: a regular expression in the validator is classified through its syntax tree
+    rx = [x for x in ast.walk(vtest) if isinstance(x, ast.Call) and call_name(x) in ('fullmatch', 'match', 'search')]
+    if rx:
+        pat = None
+        for call in rx:
+            cand = call.args[0] if isinstance(call.func, ast.Attribute) and U(call.func.value) == 're' and call.args else None
+            if cand is None and isinstance(call.func, ast.Attribute) and isinstance(call.func.value, ast.Name):
+                d = mi.globals_assign.get(call.func.value.id)
+                if isinstance(d, ast.Call) and d.args:
+                    cand = d.args[0]
+            if isinstance(cand, ast.Constant) and isinstance(cand.value, str):
+                pat = cand.value
+        verdict = _ascii_only_regex(pat) if pat is not None else None
+        if verdict is None or verdict is False:
+            raise AnalysisError(f'C01.9 undecided: cannot relate the constructor test `{U(ctest)}` to the regular expression in {vname}')
+        c.fail(v, f'validator {vname} accepts ASCII names only ({pat!r}) but the constructor accepts `{U(ctest)}`',
+               f'a bus named with a non-ASCII identifier (e.g. "CaféOrders") is accepted by EventBus() and by dispatch, but {vname} rejects it when a handler result is created: no handler of that bus ever runs', node=vtests[0])
+        return
+    c.fail(init, f'constructor accepts `{U(ctest)}`, validator {vname} requires `{U(vtest)}`',
+           f'EventBus() accepts names that {vname} (the validator of EventResult.eventbus_name) rejects: on such a bus the pending result of every handler fails validation in process_event, no handler is '
+           'ever invoked and its events never complete', node=asserts[0])
+
+
+@ob('C01.10', 'ORD', 'a forward (another bus\'s dispatch, also of an EventBus subclass) is never removed by the recursion guard and a non-forward is never removed by the path test '
+    '(same obligation as C07.2): a misclassified handler is skipped for an accepted event')
+def c01_10(c: Ctx) -> None:
+    from .c07 import c07_2
+
+    c07_2(c)
 
 
 from .common import await_coro  # noqa: E402
